@@ -1,0 +1,10 @@
+//go:build verif
+
+package signatures
+
+// Contracts for the deductive checker in /verif (comment-only; compiled only under the verif tag).
+
+//@ func (*PublicKeyTrait).Value
+//@   property C15
+//@   purefn
+//@   ensures result == pk.V
